@@ -3,6 +3,7 @@
 -/
 import NiVerif.Model.Port
 import NiVerif.Proofs.Bits
+import NiVerif.Proofs.PortLemmas
 
 namespace Props.C06
 open Model.Port
@@ -208,6 +209,55 @@ theorem port_width_of_mask (mask : Nat) :
     have := Py.and_mask (mask : Int) 32; simpa using this
   rw [h8, h16, h32]
   split <;> split <;> (try split) <;> (try split) <;> (try split) <;> (try split) <;> first | rfl | omega
+
+/-! ### the tie by proof: the function regenerated from `_mask_to_column_indices` (Gen/Port.lean, translator tier T8) -/
+open Proofs.Port in
+/-- the generated loop *is* the model's `maskToColumns`, for every mask (also negative), width and bit-order string -/
+theorem gen_columns_eq_model (mask : Int) (w : Nat) (bo : String) :
+    Gen.Port._mask_to_column_indices mask (w : Int) bo = maskToColumns mask w (decide (bo = "big")) := by
+  unfold Gen.Port._mask_to_column_indices maskToColumns
+  by_cases h : mask < 0
+  · simp [h]
+  · simp only [h, if_false]
+    obtain ⟨m, rfl⟩ : ∃ m : Nat, mask = (m : Int) := ⟨mask.toNat, by omega⟩
+    simp only [Int.toNat_natCast]
+    rw [whileFuel_colLoop0 (decide (bo = "big")) w]
+    · have := colLoopState_fst (decide (bo = "big")) w (Py.bitLen m) m 0 []
+      generalize colLoopState (decide (bo = "big")) w (Py.bitLen m) m 0 [] = st at this ⊢
+      obtain ⟨p, q, c⟩ := st
+      simp only [List.nil_append] at this
+      subst this
+      by_cases hbo : bo = "big" <;> simp [hbo]
+    · intro acc pos m; simp
+    · intro acc pos m
+      simp only [and_one_nat, shr_one_nat]
+      have hp : ((pos : Int) + 1) = ((pos + 1 : Nat) : Int) := by omega
+      have h1 : ¬ (((1 : Nat) : Int) = 0) := by decide
+      have h0 : (((0 : Nat) : Int) = 0) := by decide
+      by_cases hb : m % 2 = 1
+      · simp only [hb, ne_eq, if_true, h1, not_false_eq_true]
+        by_cases hbo : bo = "big"
+        · simp only [hbo, if_true, decide_true, colOf, hp]
+        · simp only [hbo, if_false, decide_false, colOf, hp]; rfl
+      · have hb0 : m % 2 = 0 := by omega
+        simp only [hb0, ne_eq, h0, not_true_eq_false, if_false, hp]
+        simp
+
+/-- … hence the code's column list is the property's: the set bits ascending for 'little', `w-1-b` for the set bits descending
+    for 'big', and a negative mask is a ValueError -/
+theorem gen_columns_spec (mask w : Nat) :
+    Gen.Port._mask_to_column_indices (mask : Int) (w : Int) "little" = .ok ((setBits mask).map fun (b : Nat) => (b : Int))
+    ∧ Gen.Port._mask_to_column_indices (mask : Int) (w : Int) "big"
+        = .ok ((setBits mask).reverse.map fun (b : Nat) => (w : Int) - 1 - b) := by
+  rw [gen_columns_eq_model, gen_columns_eq_model]
+  exact columns_spec mask w
+
+theorem gen_negative_mask_ValueError (mask : Int) (w : Nat) (bo : String) (h : mask < 0) :
+    Gen.Port._mask_to_column_indices mask (w : Int) bo = .error .ValueError := by
+  rw [gen_columns_eq_model]; exact negative_mask_ValueError mask w _ h
+
+example : Gen.Port._mask_to_column_indices 0xDEADBEEF 32 "big"
+    = .ok [0, 1, 3, 4, 5, 6, 8, 10, 12, 13, 15, 16, 18, 19, 20, 21, 22, 24, 25, 26, 28, 29, 30, 31] := by decide +kernel
 
 -- non-vacuity: the documented examples
 example : portToLine [0, 1, 2, 3] 8 3 true = .ok [[0, 0], [0, 1], [1, 0], [1, 1]] := by decide +kernel
